@@ -166,6 +166,7 @@ pub fn run(tier: &str, shard: (u32, u32), seed: u64) -> Report {
     };
     let offset = seed % stride.max(1);
     let mut prev_key_for_order: Option<(u32, usize)> = None;
+    let mut dense_bad = [0u64; 4];
     for j in (sh as u64..n_ids).step_by(nsh as usize) {
         let id = (j * stride + offset).min(u32::MAX as u64) as u32;
         for &v in &bounds {
@@ -175,18 +176,24 @@ pub fn run(tier: &str, shard: (u32, u32), seed: u64) -> Report {
                 if v != 0 && s != 0 {
                     nontrivial += 1;
                 }
-                if cv::key_to_fields(k) != (id, v, s) {
+                if cv::key_to_fields(k) != (id, v, s) && {
+                    dense_bad[0] += 1;
+                    dense_bad[0] <= 4
+                } {
                     rep.violations.push(viol(
                         "roundtrip",
                         format!("fields ({id},{v},{s}) -> key {k:#x} -> {:?}", cv::key_to_fields(k)),
-                        &[("id", id.to_string())],
+                        &[("id", "dense-sample".into())],
                     ));
                 }
-                if k == usize::MAX && id != u32::MAX {
+                if k == usize::MAX && id != u32::MAX && {
+                    dense_bad[1] += 1;
+                    dense_bad[1] <= 4
+                } {
                     rep.violations.push(viol(
                         "reserved-key",
                         format!("fields ({id},{v},{s}) encode to the poller's reserved key"),
-                        &[("id", id.to_string())],
+                        &[("id", "dense-sample".into())],
                     ));
                 }
             }
@@ -194,7 +201,10 @@ pub fn run(tier: &str, shard: (u32, u32), seed: u64) -> Report {
         // distinct ids give distinct keys for equal (v, s): strict monotonicity in id
         let k0 = cv::fields_to_key(id, 0xffff, 0xffff);
         if let Some((pid, pk)) = prev_key_for_order {
-            if pid < id && !(pk < cv::fields_to_key(id, 0, 0)) {
+            if pid < id && !(pk < cv::fields_to_key(id, 0, 0)) && {
+                dense_bad[2] += 1;
+                dense_bad[2] <= 4
+            } {
                 rep.violations.push(viol(
                     "injective-across-ids",
                     format!("max key of id {pid} ({pk:#x}) is not below min key of id {id}"),
@@ -206,11 +216,12 @@ pub fn run(tier: &str, shard: (u32, u32), seed: u64) -> Report {
         // new-slot key
         match cv::new_slot_key(id as usize) {
             Some(k) if cv::key_to_fields(k) == (id, 0, 0) => {}
-            other => rep.violations.push(viol(
-                "new-slot",
-                format!("new slot {id} gave {other:?}"),
-                &[],
-            )),
+            other => {
+                dense_bad[3] += 1;
+                if dense_bad[3] <= 4 {
+                    rep.violations.push(viol("new-slot", format!("new slot {id} gave {other:?}"), &[]));
+                }
+            }
         }
         evals += 1;
     }
